@@ -35,6 +35,7 @@ fn main() {
         "c19" => c19::explore(thorough, &out),
         "c20" => c20::explore(thorough, &out),
         "c20-child" => c20::child(thorough),
+        "c01-child" => c01::child(args.get(2).expect("case file")),
         "replay" => {
             let engine = args.get(2).expect("engine");
             let file = args.get(3).expect("file");
